@@ -143,7 +143,36 @@ pub fn label_text(l: &Label) -> String {
     }
 }
 
+/// Long byte strings travel through traces as the token "~big:<len>:<seed>": `len` bytes, the first eight being the seed
+/// (big-endian) and the rest an xorshift stream of it.  hex_text() maps such bytes back to the token (and anything else
+/// of that size to "~bigx:<len>:<hash>", which equals no token), so a trace line stays short whatever the size.
+pub const BIG_FROM: usize = 1 << 16;
+pub fn big_bytes(len: usize, seed: u64) -> Vec<u8> {
+    let mut v = Vec::with_capacity(len);
+    v.extend_from_slice(&seed.to_be_bytes());
+    let mut x = seed | 1;
+    while v.len() < len {
+        x ^= x << 13;
+        x ^= x >> 7;
+        x ^= x << 17;
+        v.extend_from_slice(&x.to_le_bytes());
+    }
+    v.truncate(len);
+    v
+}
+
 pub fn hex_text(b: &[u8]) -> String {
+    if b.len() >= BIG_FROM {
+        let seed = u64::from_be_bytes(b[0..8].try_into().unwrap());
+        if big_bytes(b.len(), seed) == b {
+            return format!("~big:{}:{}", b.len(), seed);
+        }
+        let mut h: u64 = 0xcbf29ce484222325;
+        for x in b {
+            h = (h ^ u64::from(*x)).wrapping_mul(0x100000001b3);
+        }
+        return format!("~bigx:{}:{h}", b.len());
+    }
     if b.is_empty() {
         "--".to_string()
     } else {
@@ -151,7 +180,19 @@ pub fn hex_text(b: &[u8]) -> String {
     }
 }
 
+/// "<bytes>~v" asks put() for the heap representation Hex::Vector whatever the length (both variants are public)
+pub fn wants_vector(text: &str) -> bool {
+    text.ends_with("~v")
+}
+
 pub fn bytes_of(text: &str) -> Vec<u8> {
+    let text = text.strip_suffix("~v").unwrap_or(text);
+    if let Some(r) = text.strip_prefix("~big:") {
+        let mut it = r.split(':');
+        let len: usize = it.next().unwrap().parse().unwrap();
+        let seed: u64 = it.next().unwrap().parse().unwrap();
+        return big_bytes(len, seed);
+    }
     if text == "--" {
         return vec![];
     }
@@ -165,6 +206,8 @@ pub trait G: Any {
     fn add(&mut self, v: usize) -> Result<(), String>;
     fn bind(&mut self, v1: usize, v2: usize, a: &str) -> Result<(), String>;
     fn put(&mut self, v: usize, d: &[u8]) -> Result<(), String>;
+    /// put with the datum held as Hex::Vector whatever its length
+    fn put_vector(&mut self, v: usize, d: &[u8]) -> Result<(), String>;
     fn data(&mut self, v: usize) -> Result<Option<Vec<u8>>, String>;
     fn next_id(&mut self) -> Result<usize, String>;
     fn kid(&self, v: usize, a: &str) -> Result<Option<usize>, String>;
@@ -174,6 +217,9 @@ pub trait G: Any {
     fn is_empty(&self) -> Result<bool, String>;
     fn snap(&self) -> VerifSnapshot;
     fn dup(&self) -> Result<Box<dyn G>, String>;
+    /// copy into an EXISTING graph with Clone::clone_from (the other half of the Clone trait); Ok(false): not the same type
+    fn dup_into(&self, dst: &mut dyn G) -> Result<bool, String>;
+    fn as_any_mut(&mut self) -> &mut dyn Any;
     fn save(&self, p: &Path) -> Result<Result<usize, String>, String>;
     fn load_same(&self, p: &Path) -> Result<Result<Box<dyn G>, String>, String>;
     fn slice(&self, v: usize, p: &Pred) -> Result<Result<Box<dyn G>, String>, String>;
@@ -208,6 +254,10 @@ impl<const N: usize> G for R<N> {
         let h = Hex::from_slice(d);
         guarded(|| self.0.put(v, &h))
     }
+    fn put_vector(&mut self, v: usize, d: &[u8]) -> Result<(), String> {
+        let h = Hex::Vector(d.to_vec());
+        guarded(|| self.0.put(v, &h))
+    }
     fn data(&mut self, v: usize) -> Result<Option<Vec<u8>>, String> {
         guarded(|| self.0.data(v).map(|h| h.bytes().to_vec()))
     }
@@ -235,6 +285,18 @@ impl<const N: usize> G for R<N> {
     }
     fn dup(&self) -> Result<Box<dyn G>, String> {
         guarded(|| Box::new(R::<N>(self.0.clone())) as Box<dyn G>)
+    }
+    fn dup_into(&self, dst: &mut dyn G) -> Result<bool, String> {
+        match dst.as_any_mut().downcast_mut::<R<N>>() {
+            Some(d) => guarded(|| {
+                d.0.clone_from(&self.0);
+                true
+            }),
+            None => Ok(false),
+        }
+    }
+    fn as_any_mut(&mut self) -> &mut dyn Any {
+        self
     }
     fn save(&self, p: &Path) -> Result<Result<usize, String>, String> {
         guarded(|| self.0.save(p).map_err(|e| format!("{e:#}")))
